@@ -311,6 +311,41 @@ def run_case(case, ctx):
             r3["sig"], r3["nt"] = res["sig"], res["nt"]
             return r3
         res["cls"] = list(res["cls"]) + ["history_resimplified"]
+    # portions and trimmed versions of an input track that has already been simplified (by both algorithms above)
+    n = tr.size()
+    if n >= 3:
+        import random
+        rng = random.Random(repr((case["pts"], case["tol"], case["mode"])))
+        i = rng.randrange(0, n - 1)
+        j = rng.randrange(i + 1, n)
+        if (i, j) == (0, n - 1):
+            i = 1
+        how = rng.choice(["extract", "slice", "trim"])
+        if how == "extract":
+            sub = M.call(tr.extract, i, j)
+        elif how == "slice":
+            sub = M.call(lambda: tr[i:j + 1])
+        else:
+            def _trim():
+                c = tr.copy()
+                for _ in range(n - 1 - j):
+                    c.removeLastObs()
+                for _ in range(i):
+                    c.removeFirstObs()
+                return c
+            sub = M.call(_trim)
+        if M.is_raised(sub) or sub.size() != j - i + 1:
+            ctx.count("history_portion_unavailable")
+            return res
+        pts_sub = [[sub.getObs(k).position.getX(), sub.getObs(k).position.getY()] for k in range(sub.size())]
+        for mode4, tol4 in ((case["mode"], tol2), (other, case["tol"])):
+            r4, _, _ = _judge({"pts": pts_sub, "tol": tol4, "mode": mode4, "style": case.get("style")}, ctx, sub)
+            if r4["v"] == "violated":
+                r4["witness"]["history"] = ("simplify() on a portion (%s %d..%d) of an input track that was simplified before "
+                                            "(first: %s, tol %r)" % (how, i, j, case["mode"], case["tol"]))
+                r4["sig"], r4["nt"] = res["sig"], res["nt"]
+                return r4
+        res["cls"] = list(res["cls"]) + ["history_portion"]
     return res
 
 
@@ -344,7 +379,10 @@ def _judge(case, ctx, tr=None):
 
     ctx.monitor("input_unchanged")
     after = _snapshot(tr)
-    changed = [k for k in before if before[k] != after[k]]
+    # the property speaks of the observations; a feature column left on the input (e.g. a cache) is an event, not a verdict
+    if before["features"] != after["features"] or before["nfeat"] != after["nfeat"]:
+        ctx.count("input_feature_table_changed")
+    changed = [k for k in ("n", "x", "y", "z", "t") if before[k] != after[k]]
     if changed or any(tr.getObs(i) is not src_obs[i] for i in range(min(n, tr.size()))):
         return violated(dict(base, what="simplify() changed its input track", kind="input_changed",
                              changed=changed or ["observation identity/order"]), sig, nontrivial, cls)
